@@ -35,7 +35,7 @@ def facetsC16P (c : PCase) (ops : List (List String)) (o : PObs) : Facets :=
     (match videoTrack? m, vs.head? with
      | some vt, some k =>
        let f := facetsC07Video c.cfg.codec c.cfg.width c.cfg.height vt k.data
-       let us := units k.data
+       let us := unitsFast k.data
        let big := us.any fun u => u.length ≥ 65536
        f.filterMap fun x =>
          if x == "avcC-sets" || x == "hvcC-sets" || x == "avcC-layout" || x == "hvcC-layout" then
